@@ -1263,7 +1263,7 @@ PassMessageCallbackAux(DataNode & node, const MessageRef & msgRef, bool includeS
 
    StorageReflectSession * next = dynamic_cast<StorageReflectSession *>(GetSession(node.GetAncestorNode(NODE_DEPTH_SESSIONNAME, &node)->GetNodeName())());
    if ((next)&&((next != this)||(includeSelfOkay))) next->MessageReceivedFromSession(*this, msgRef, &node);
-   return NODE_DEPTH_SESSIONNAME; // This causes the traversal to immediately skip to the next session
+   return NODE_DEPTH_HOSTNAME; // This causes the traversal to immediately skip to the next session (returning NODE_DEPTH_SESSIONNAME would resume the traversal among this same session's remaining nodes)
 }
 
 int
